@@ -105,6 +105,46 @@ func cmpOps(p *pkgInfo, fd *ast.FuncDecl) []cmpAt {
 	return out
 }
 
+// walkFieldCodes: the statement lists of parser.Node, numbered as in Clone/Walk.v (field_of_code).
+var walkFieldCodes = map[string]int{"Children": 0, "Body": 1, "Orelse": 2, "Handlers": 3, "Finalbody": 4}
+
+// rangedNodeFields: the fields F of `for .. := range <param>.F { .. }` loops of fd over its parameter
+// `param`, in source order, as codes of walkFieldCodes (a field outside that table is a problem).
+func rangedNodeFields(fd *ast.FuncDecl, param string) []int {
+	var out []int
+	ast.Inspect(fd, func(nd ast.Node) bool {
+		rs, ok := nd.(*ast.RangeStmt)
+		if !ok {
+			return true
+		}
+		se, ok := rs.X.(*ast.SelectorExpr)
+		if !ok {
+			return true
+		}
+		if id, ok := se.X.(*ast.Ident); !ok || id.Name != param {
+			return true
+		}
+		c, known := walkFieldCodes[se.Sel.Name]
+		if !known {
+			fail("%s ranges over %s.%s, which the walk model (Clone/Walk.v) does not know", fd.Name.Name, param, se.Sel.Name)
+			return true
+		}
+		out = append(out, c)
+		return true
+	})
+	return out
+}
+
+func natList(xs []int) string {
+	var sb strings.Builder
+	sb.WriteString("(")
+	for _, x := range xs {
+		fmt.Fprintf(&sb, "%d :: ", x)
+	}
+	sb.WriteString("nil)%nat")
+	return sb.String()
+}
+
 func init() {
 	generators = append(generators, func() {
 		p := loadPkg("internal/analyzer")
@@ -243,9 +283,24 @@ func init() {
 				}
 			}
 		}
+		// the statement lists the fragment walks follow, and the lists the compared tree is built from
+		for _, w := range []struct{ name, file, recv, fn, param string }{
+			{"clone_walk_fields", "clone_detector.go", "CloneDetector", "extractFragmentsRecursive", "node"},
+			{"clone_walk_src_fields", "clone_detector.go", "CloneDetector", "extractFragmentsRecursiveWithSource", "node"},
+			{"clone_tree_fields", "apted_tree.go", "TreeConverter", "ConvertAST", "astNode"},
+		} {
+			if fd := get(p, w.file, w.recv, w.fn); fd != nil {
+				fs := rangedNodeFields(fd, w.param)
+				if len(fs) == 0 {
+					fail("%s: no `range %s.<list>` loop found", w.fn, w.param)
+				}
+				fmt.Fprintf(&b, "(* %s: range loops over %s.<list>, in source order; 0 Children, 1 Body, 2 Orelse, 3 Handlers, 4 Finalbody *)\n"+
+					"Definition %s : list nat := %s.\n", w.fn, w.param, w.name, natList(fs))
+			}
+		}
 		writeGen("CloneConst.v", b.String())
 
-		for _, f := range []string{"shouldIncludeFragment", "extractFragmentsRecursive", "detectClonePairsWithContext",
+		for _, f := range []string{"shouldIncludeFragment", "extractFragmentsRecursive", "extractFragmentsRecursiveWithSource", "detectClonePairsWithContext",
 			"detectClonePairsStandardWithContext", "detectClonePairsWithBatchingContext", "calculateBatchSize",
 			"shouldCompareFragments", "compareFragments", "compareWithAPTED", "compareFragmentsWithClassifier", "classifyCloneType",
 			"isSignificantClone", "isOverlappingLocation", "tryCreateClonePair", "addPairWithLimit", "limitAndSortClonePairs",
@@ -259,6 +314,7 @@ func init() {
 			recordDigest(p, "minhash.go", "MinHasher", f)
 		}
 		recordDigest(p, "syntactic_similarity.go", "", "jaccardSimilarity")
+		recordDigest(p, "apted_tree.go", "TreeConverter", "ConvertAST")
 		recordDigest(sp, "clone_service.go", "CloneService", "filterClonePairs")
 		recordDigest(sp, "clone_service.go", "CloneService", "createDetectorConfig")
 		dp := loadPkg("domain")
